@@ -1535,6 +1535,22 @@ GEN(int) @G() {
 }
 func @Sum() int { t := 0; RANGEITER(v, :=, GENCALL(int, @G)) { t += v }; return t }`, Drives: []Drive{fn("int", "@Sum", "")}},
 
+	{Name: "ConsumerLoopVariableCopies", Props: []string{"C06", "C03"}, Src: `
+// copies of the loop variable made in NESTED blocks of a consumer loop (if, switch, for, bare block) are variables
+// of their own: writing to them does not touch the loop variable
+GEN(int) @Nums(n int) { for i := 1; i <= n; i++ { YIELD(i) }; RETURN }
+func @F(n int) int {
+	t := 0
+	RANGEITER(v, :=, GENCALL(int, @Nums, n)) {
+		if v%2 == 1 { v := v; v *= 10; t += v }
+		switch { case v == 2: v := v; v += 100; t += v }
+		for k := 0; k < 1; k++ { v := v; v = -v; t += v }
+		{ v := v; v++; t += v }
+		t = 2*t + v
+	}
+	return t
+}`, Drives: []Drive{fn("int", "@F", "3"), fn("int", "@F", "0")}},
+
 	{Name: "TypeSwitchScopes", Props: []string{"C03", "C01"}, Src: `
 GEN(int) @G(vs []any) {
 	for _, v := range vs {
